@@ -608,3 +608,129 @@ impl OutQuery {
         ret.map_err(super::Error::OutReply)
     }
 }
+
+/// Verification hooks (built only with `--cfg erbium_verif`): add-only access to
+/// the private pieces of the out-query path and a way to start the real DNS
+/// service on caller-chosen listeners with a forward route to a caller-chosen
+/// upstream socket address (the configuration file format fixes the port to 53).
+#[cfg(erbium_verif)]
+pub mod verif {
+    use super::*;
+
+    pub const MIN_DNS_TIMEOUT_MS: u64 = MIN_DNS_TIMEOUT.as_millis() as u64;
+    pub const MAX_DNS_TIMEOUT_MS: u64 = MAX_DNS_TIMEOUT.as_millis() as u64;
+
+    /// The global adaptive first-retry delay.
+    pub async fn dns_timeout_ms() -> u64 {
+        DNS_TIMEOUT.read().await.as_millis() as u64
+    }
+    pub async fn set_dns_timeout_ms(ms: u64) {
+        *DNS_TIMEOUT.write().await = Duration::from_millis(ms);
+    }
+
+    /// `Error` as a small number: 0 Timeout, 1 FailedToSend*, 2 FailedToRecv*,
+    /// 3 TcpConnection, 4 Parse, 5 Internal.
+    pub fn error_code(e: &Error) -> u8 {
+        match e {
+            Error::Timeout => 0,
+            Error::FailedToSend(_) | Error::FailedToSendMsg(_) => 1,
+            Error::FailedToRecv(_) | Error::FailedToRecvMsg(_) => 2,
+            Error::TcpConnection(_) => 3,
+            Error::Parse(_) => 4,
+            Error::Internal(_) => 5,
+        }
+    }
+
+    /// One query with a caller-chosen id through the shared per-upstream TCP task.
+    pub async fn tcp_query(
+        addr: std::net::SocketAddr,
+        id: u16,
+        in_query: &dnspkt::DNSPkt,
+    ) -> Result<dnspkt::DNSPkt, u8> {
+        TcpNameserver::send_query_to(&addr, create_outquery(id, in_query))
+            .await
+            .map_err(|e| error_code(&e))
+    }
+
+    /// `OutQuery::handle_query` for a query built by the caller.
+    pub async fn out_query(
+        in_query: dnspkt::DNSPkt,
+        tcp: bool,
+        addr: std::net::SocketAddr,
+    ) -> Result<dnspkt::DNSPkt, u8> {
+        let msg = super::super::DnsMessage {
+            in_size: in_query.serialise().len(),
+            in_query,
+            local_ip: std::net::IpAddr::V4(std::net::Ipv4Addr::LOCALHOST),
+            remote_addr: std::net::SocketAddr::from(([127, 0, 0, 1], 1)).into(),
+            protocol: if tcp { Protocol::Tcp } else { Protocol::Udp },
+        };
+        OutQuery::new().handle_query(&msg, addr).await.map_err(|e| match e {
+            super::super::Error::OutReply(e) => error_code(&e),
+            _ => 255,
+        })
+    }
+
+    /// The real DNS service on `listeners` (port 0 = ephemeral), every name
+    /// forwarded to `upstream`, default ACLs.  Returns the service and the bound
+    /// UDP and TCP addresses, in the order of `listeners`.
+    pub async fn service(
+        listeners: Vec<erbium_net::addr::NetAddr>,
+        upstream: std::net::SocketAddr,
+    ) -> Result<
+        (
+            super::super::DnsService,
+            Vec<std::net::SocketAddr>,
+            Vec<std::net::SocketAddr>,
+        ),
+        super::super::Error,
+    > {
+        use erbium_net::addr::NetAddrExt as _;
+        let mut conf = crate::config::Config::default();
+        conf.dns_listeners = crate::config::AddressType::Addresses(listeners);
+        conf.dns_routes = vec![super::super::config::Route {
+            suffixes: vec![dnspkt::Domain::from(vec![])],
+            dest: super::super::config::Handler::Forward(vec![upstream]),
+        }];
+        conf.acls = crate::acl::default_acls(&[]);
+        let conf = std::sync::Arc::new(tokio::sync::RwLock::new(conf));
+        /* As DnsListenerHandler::new, without the netinfo lookup (the listeners are
+         * given as addresses). */
+        let mut udp_listeners = vec![];
+        let mut tcp_listeners = vec![];
+        {
+            let roconf = conf.read().await;
+            if let crate::config::AddressType::Addresses(addrs) = &roconf.dns_listeners {
+                for addr in addrs {
+                    udp_listeners
+                        .push(super::super::DnsListenerHandler::listen_udp(&conf, addr).await?);
+                    tcp_listeners
+                        .push(super::super::DnsListenerHandler::listen_tcp(&conf, addr).await?);
+                }
+            }
+        }
+        let svc = super::super::DnsService {
+            next: tokio::sync::RwLock::new(super::super::DnsListenerHandler {
+                next: super::super::acl::DnsAclHandler::new(conf).await,
+                udp_listeners,
+                tcp_listeners,
+                rate_limiter: super::super::IpRateLimiter::new().into(),
+            })
+            .into(),
+        };
+        let (udp, tcp) = {
+            let h = svc.next.read().await;
+            (
+                h.udp_listeners
+                    .iter()
+                    .map(|l| l.local_addr().unwrap().to_std_socket_addr().unwrap())
+                    .collect(),
+                h.tcp_listeners
+                    .iter()
+                    .map(|l| l.local_addr().unwrap())
+                    .collect(),
+            )
+        };
+        Ok((svc, udp, tcp))
+    }
+}
